@@ -320,6 +320,47 @@ def main(tier, seed, replay=None):
                     if not ok:
                         diffs.append((c, "%s graph handed over as [%s]: report differs from the one for the Graph object" % (arg, desc), base, got,
                                       src if isinstance(src, str) and len(src) < 3000 else repr(src)[:300]))
+        # ---- forms of TWO arguments varied together: a format stated for one argument says nothing about the others
+        cross_cases = 0
+        tried = 0
+        while cross_cases < (25 if big else 4) and tried < 200:
+            tried += 1
+            c = EC.base_case(rng)
+            if any(isinstance(t, BNode) for s_ in c["shapes"] for t in s_["targets"]["nodes"]) or not canonical(c["data"]) or not canonical(c["sg"]):
+                continue
+            ont = rdflib.Graph()
+            ont.add((EX.C0, RDFS.subClassOf, EX.C1))
+            ont.add((EX.p, RDFS.domain, EX.C1))
+            base = S.run_validate(c["data"], c["sg"], ont_graph=ont, inference="rdfs")
+            if base[0] != "ok":
+                continue
+            cross_cases += 1
+            fd = {k_: v_ for k_, v_ in forms_of(rng, c["data"], d, "xd%d" % cross_cases)}
+            fs = {k_: v_ for k_, v_ in forms_of(rng, c["sg"], d, "xs%d" % cross_cases)}
+            fo = {k_: v_ for k_, v_ in forms_of(rng, ont, d, "xo%d" % cross_cases)}
+            stated = [k_ for k_ in fd if "format given" in k_ and ("str" in k_ or "bytes" in k_)]
+            omitted = lambda f_: [k_ for k_ in f_ if ("path with extension" in k_ or "format omitted" in k_ or "file: URI" in k_)]
+            for _ in range(12 if big else 8):
+                kd = rng.choice(stated)
+                ks, ko = rng.choice(omitted(fs) + ["graph"]), rng.choice(omitted(fo) + ["graph"])
+                srcd, fmtd, cd_ = fd[kd]()
+                srcs, fmts, cs_ = fs[ks]() if ks != "graph" else (c["sg"], None, None)
+                srco, fmto, co_ = fo[ko]() if ko != "graph" else (ont, None, None)
+                kw = {"inference": "rdfs", "data_graph_format": fmtd}
+                if fmts:
+                    kw["shacl_graph_format"] = fmts
+                if fmto:
+                    kw["ont_graph_format"] = fmto
+                try:
+                    got = S.run_validate(srcd, srcs, ont_graph=srco, **kw)
+                finally:
+                    for cl_ in (cd_, cs_, co_):
+                        if cl_:
+                            cl_()
+                stats["forms"] += 1
+                stats["cross_argument_forms"] = stats.get("cross_argument_forms", 0) + 1
+                if not (got[0] == "ok" and got[1] == base[1] and keys_iso(got) == keys_iso(base)):
+                    diffs.append((c, "data as [%s], shapes as [%s], ontology as [%s]: report differs from the one for three Graph objects (%s)" % (kd, ks, ko, got[:3] if got[0] != "ok" else "other results"), base, got, None))
         # ---- the EMPTY graph in every form, for the shapes and for the ontology argument: the data graph carries a shape of its
         # own which it violates, so "no shapes graph given" (shapes are then taken from the data graph) and "an empty shapes
         # graph given" are told apart
@@ -419,7 +460,7 @@ def main(tier, seed, replay=None):
     cov.update({
         "evaluations": len(bodies) + stats["forms"] + stats["cases"],
         "distinct_nontrivial": stats["forms"],
-        "rule": "(1) decisions: serialisations of random graphs in turtle/nt/xml/json-ld and perturbed headers (PREFIX/BASE upper case, '# baseURI:' comment, leading blank lines, long prefix lines, blank-node-first N-Triples, empty and blank documents, HTML), path-like and short strings, as str and bytes; the empty graph as shapes / ontology argument in ten forms (Graph(), Dataset(), '', b'', comment-only text and bytes, empty and comment-only files, open file, StringIO) against a data graph carrying its own violated shape; a document with owl:imports of a local file as shapes / ontology argument in seven forms with do_owl_imports=True: observed source kind / sniffed format / extension format = model; "
+        "rule": "(1) decisions: serialisations of random graphs in turtle/nt/xml/json-ld and perturbed headers (PREFIX/BASE upper case, '# baseURI:' comment, leading blank lines, long prefix lines, blank-node-first N-Triples, empty and blank documents, HTML), path-like and short strings, as str and bytes; two or three arguments varied together (data with a stated format, shapes and ontology with theirs omitted); the empty graph as shapes / ontology argument in ten forms (Graph(), Dataset(), '', b'', comment-only text and bytes, empty and comment-only files, open file, StringIO) against a data graph carrying its own violated shape; a document with owl:imports of a local file as shapes / ontology argument in seven forms with do_owl_imports=True: observed source kind / sniffed format / extension format = model; "
                 "(2) the property: random shapes/data (canonical literals) + ontology, each of the three graph arguments handed over as str, bytes, path with extension, file: URI, open binary/text file, StringIO/BytesIO, in four formats, with the format stated or omitted where a standard header or extension determines it: same verdict and result keys (blank node labels erased) as with Graph objects",
         "distribution": dict(stats, empty_graph_differences=len(empty_diffs), serialisations_skipped_because_rdflib_round_trip_is_not_isomorphic=dict(forms_of.skipped), decision_cases=kinds, model_disagreements=len(failed), differences=len(diffs)),
         "samples": [{k: (v[:200] if isinstance(v, str) else v) for k, v in meta[0].items()}],
